@@ -635,8 +635,11 @@ Exec(n, s, st) ==
 
 ----------------------------------------------------------------------------
 (* a whole run: top-level scope with the host probes, top-level defer list *)
+\* what the host binds in the outermost scope: the probe functions, and two nil containers of concrete Go types (hnm: map[string]int64(nil),
+\* hnl: []int64(nil)) -- to a script an empty map and an empty list, which grow by being stored back into the binding that holds them
+HostNames == {"p", "pv", "pn", "pa", "pp", "ch", "pe", "hnm", "hnl"}
 InitStateX(fuel, ext) ==
-  [ext |-> ext, sc |-> <<[par |-> 0, vars |-> [n \in {"p", "pv", "pn", "pa", "pp", "ch", "pe"} |-> HostV(n)]]>>,
+  [ext |-> ext, sc |-> <<[par |-> 0, vars |-> [n \in HostNames |-> IF n = "hnm" THEN MapV(<<>>) ELSE IF n = "hnl" THEN ListV(<<>>) ELSE HostV(n)]]>>,
    log |-> <<>>, fuel |-> fuel, fns |-> <<>>, ds |-> <<<<>>>>, open |-> FALSE]
 InitState(fuel) == InitStateX(fuel, {})
 
@@ -655,7 +658,7 @@ RunX(prog, fuel, ext) ==
   ELSE LET dl == b.st.ds[1]
            d == RunDefers([b.st EXCEPT !.ds = <<>>], dl, Len(dl), b, NoneV) IN
        IF d.o = "fuel" THEN [cls |-> "fuel", v |-> NilV, log |-> <<>>, top |-> <<>>, open |-> TRUE]
-       ELSE LET names == DOMAIN d.st.sc[1].vars \ {"p", "pv", "pn", "pa", "pp", "ch", "pe"} IN
+       ELSE LET names == DOMAIN d.st.sc[1].vars \ HostNames IN
             [cls |-> CASE d.o \in {"norm", "ret"} -> "ok" [] d.o = "thr" -> "err" [] OTHER -> "strayloopctl",
              v |-> IF d.o = "ret" THEN ProjV(d.v) ELSE IF d.o = "thr" THEN d.v ELSE OpenV,
              log |-> [j \in 1..Len(d.st.log) |-> ProjV(d.st.log[j])],
